@@ -125,7 +125,8 @@ def run_for(prop, seed=0, repo='/repo', jobs=None):
     finally:
         for td in made:
             shutil.rmtree(td, ignore_errors=True)
-        for fp in list(_SCRATCH_FACTS):
+        # (a sweep over all properties may keep them: the same mutated trees are analysed again for the next property)
+        for fp in ([] if os.environ.get('VERIF_KEEP_SCRATCH_FACTS') else list(_SCRATCH_FACTS)):
             for p in (fp, fp + '.pickle'):
                 try:
                     os.remove(p)
